@@ -247,9 +247,9 @@ def rand_param_text(rng, keys):
     if r < 0.1:
         body = "#" + k
     elif r < 0.55:
-        body = "#" + k + ":" + rand_text(rng, 10, "ab \n/\\:;#0123").replace("#", "\\#" if rng.random() < 0.7 else "#")
+        body = "#" + k + ":" + rand_text(rng, 10, "ab \n\r/\\:;#0123").replace("#", "\\#" if rng.random() < 0.7 else "#")
     else:
-        body = "#" + k + ":" + ":".join(rng.choice(["a", "", " b ", "60", "\nx\n", "c//d", "e\\:f"]) for _ in range(rng.randrange(1, 9)))
+        body = "#" + k + ":" + ":".join(rng.choice(["a", "", " b ", "60", "\nx\n", "c//d", "e\\:f", "y\r\nz", "w\rv"]) for _ in range(rng.randrange(1, 9)))
     end = rng.choice([";", ";", ";", ";", "", ";;"])
     return body + end
 
@@ -260,7 +260,7 @@ def rand_case(rng, k):
 
 def rand_clean_text(rng, ssc):
     """well-formed text with nothing that needs escaping: only the letter case of the keys (markers included) varies"""
-    val = lambda: rng.choice(["a", "b c", "12", "0.000=120.000", "x y z", "", "Easy"])
+    val = lambda: rng.choice(["a", "b c", "12", "0.000=120.000", "x y z", "", "Easy", "one\r\ntwo", "cr\ronly", "0.000=120.000,\r\n4.000=90.000"])
     parts = []
     if ssc:
         parts.append("#%s:0.83;\n" % rand_case(rng, "VERSION"))
